@@ -11,7 +11,7 @@ Init == mon = A!MonInit(Names, Slots, MaxId) /\ hist = <<>> /\ nid = 0
 Add(e) == mon' = A!Step(mon, e) /\ hist' = Append(hist, e)
 
 Bodies == << <<0, "seven">>, <<1, "inc">>, <<1, "neg">>, <<1, "cnt">>, <<1, "enl">>, <<1, "viapy">>, <<2, "sub">>, <<2, "right">>, <<2, "pair">>,
-             <<2, "negy">>, <<3, "sum3">>, <<3, "third">>, <<3, "xz">> >>
+             <<2, "negy">>, <<3, "sum3">>, <<3, "third">>, <<3, "xz">>, <<1, "pleft">>, <<1, "pright">>, <<1, "pmid">> >>
 Kind(n) == mon.store[n].kind
 Atoms == {t \in ArgT : t \notin {"[1 2]"}}
 Tuples(k, S) == [1..k -> S]
@@ -27,7 +27,7 @@ Next ==
      \/ \E n \in Names, ar \in 0..3, kl \in BOOLEAN, rz \in BOOLEAN, perm \in BOOLEAN :       \* perm: parameters declared (y, x) / (z, x, y)
           Theme \notin {"kg", "hd"} /\ nid < MaxId /\ nid' = nid + 1 /\ (perm => ar >= 2)
           /\ Add([op |-> "setpy", n |-> n, id |-> nid + 1, ar |-> ar, kl |-> kl, rz |-> rz, perm |-> perm])
-     \/ \E n \in Names, i \in 1..Len(Bodies) : Theme # "py" /\ (Theme = "hd" => Bodies[i][2] \in {"inc", "right"}) /\ Add([op |-> "defkg", n |-> n, ar |-> Bodies[i][1], body |-> Bodies[i][2]]) /\ UNCHANGED nid
+     \/ \E n \in Names, i \in 1..Len(Bodies) : Theme # "py" /\ (Theme = "hd" => Bodies[i][2] \in {"inc", "right", "pleft"}) /\ Add([op |-> "defkg", n |-> n, ar |-> Bodies[i][1], body |-> Bodies[i][2]]) /\ UNCHANGED nid
      \/ \E n \in Names : Kind(n) # "none" /\ Add([op |-> "del", n |-> n]) /\ UNCHANGED nid
      \/ \E w \in Slots, n \in Names : Kind(n) = "kg" /\ Add([op |-> "getwrap", w |-> w, n |-> n]) /\ UNCHANGED nid
      \/ \E n \in Names, via \in {"python", "klong"} :
